@@ -3,7 +3,7 @@
 # a given commit (/tmp/vs-<commit>), with the path dependencies rewritten to the scratch repo.
 #   usage: work/eval_seeded.sh <verif-commit> <seed-dir-root> <id> [<id> ...]
 commit=$1; root=$2; shift 2
-rs=/tmp/rs; vs=/tmp/vs-$commit
+rs=${RS:-/tmp/rs}; vs=/tmp/vs-$commit${VSX:-}
 [ -d $rs ] || git -C /repo worktree add -q --detach $rs HEAD
 if [ ! -d $vs ]; then
     git -C /verif worktree add -q --detach $vs $commit
